@@ -497,14 +497,18 @@ def check(ax, case, rec):
             axis = (flag >> 1) % 3  # 0 (the first column - not to be confused with None), 1 or 2
             axes = axis + 1 + (case["seed"] % 2)
             vals = rng.uniform(-1, 1, axes)
-            if case["seed"] % 3 == 2:
-                vals = [int(v_) for v_ in np.round(3 * vals)]  # whole-number defaults given as Python integers (values=[-1, 0])
             got2 = fm.linsteps(pts, num=num, endpoint=endpoint, axis=axis, axes=axes, values=vals)
             ref2 = np.ones((len(ref), axes)) * np.asarray(vals, float)
             ref2[:, axis] = ref
             rec.require("linsteps-axis-shape", got2.shape == ref2.shape, str(got2.shape))
             if got2.shape == ref2.shape:
                 rec.close("linsteps-axis", maxdiff(got2, ref2), 1e-12)
+            # whole-number defaults given as Python integers (values=[-1, 0]): the samples in column `axis` stay fractions
+            ivals = [int(v_) for v_ in np.round(3 * vals)]
+            got2i = fm.linsteps(pts, num=num, endpoint=endpoint, axis=axis, axes=axes, values=ivals)
+            ref2i = np.ones((len(ref), axes)) * np.asarray(ivals, float)
+            ref2i[:, axis] = ref
+            rec.close("linsteps-axis(integer-typed values)", maxdiff(got2i, ref2i) if np.asarray(got2i).shape == ref2i.shape else float("inf"), 1e-12)
             if (flag >> 3) % 2 == 0 or case["seed"] % 3 == 0:
                 # without `axes`: as many columns as needed to hold column `axis`; scalar default values (0)
                 got3 = fm.linsteps(pts, num=num, endpoint=endpoint, axis=axis)
